@@ -7,7 +7,7 @@ from .c11 import _prefixes
 from .c16 import _tup
 
 DERIVE = ["Select", "Where", "MD0", "MD1", "Awk", "QMD"]
-EXEC = ["Value", "ValueT", "ValueOv", "ValueAsync"]
+EXEC = ["Value", "ValueT", "ValueOv", "ValueAsync", "ValueOvFalsy", "ValueOvAw"]
 
 
 class Model:
@@ -66,13 +66,16 @@ class Model:
                 return [{"kind": "override-not-used-exactly-once",
                          "msg": f"dataset executor calls {len(new)}, override calls {len(L['ov_log'])}"}]
             got_ast, got_title = L["ov_log"][0]
-            want_ret = ("ret", ("ov", 1))
+            want_ret = ("ret", L["ov_token"])
         else:
             if len(new) != 1:
                 return [{"kind": "executor-call-count", "msg": f"{op}: {len(new)} executor calls"}]
             idx, got_ast, got_title = new[0]
             if idx != rootds.idx:
                 return [{"kind": "wrong-dataset-executed", "msg": f"{op}: ran on ds{idx}, root is ds{rootds.idx}"}]
+            if w.log_self[L["n0"]] is not rootds:
+                return [{"kind": "executed-on-a-copy-of-the-root-dataset", "msg": f"{op}: the executor ran on another object than "
+                         f"the dataset at the root of the stream"}]
             n = L["n0"] + 1
             want_ret = ("raise", streams.EXC[n % len(streams.EXC)].__name__, ("boom", idx, n)) if rootds.fail \
                 else ("ret", ("tok", idx, n))
@@ -99,7 +102,9 @@ class C12(Check):
     state_based = True
     rule = ("(1) breadth-first exploration of every history up to the stated depth over THREE datasets (two untyped, "
             "one typed; the executor of one of them always raises) of Select/Where/MetaData({})/MetaData({k:1})/"
-            "AsAwkwardArray/QMetaData and value()/value(title)/value(executor=override)/value_async, each applicable "
+            "AsAwkwardArray/QMetaData and value()/value(title)/value(executor=override)/value_async, the override also as "
+            "a callable object that is false in a boolean context and as an executor whose result is itself "
+            "awaitable, each applicable "
             "to every live stream; reference model: a list of executor calls; after every transition the log, the "
             "delivered AST (field dump must equal an independent serialisation of the stream's AST that skips "
             "exactly the empty MetaData wrappers), the title, the return value / exception and the recoverable "
